@@ -456,7 +456,7 @@ func body02(k q02) Body {
 
 // C02 — everything the client writes for a query is a well-formed packet sequence.
 func C02(c *vk.Ctx) {
-	c.Rule("queries with <= 2 fields deviating from a base query over per-field alphabets (query id given / generated / 300 bytes; body short / empty / 70 KiB / non-UTF-8; 0..2 connection settings; 0..2 query settings incl. an override and an empty value; 0..2 parameters; secret; query quota key; connection quota key (addendum); initial user; external data none / default table / named table with 2 columns; input of 1..3 columns, sent as one block or streamed in two rounds through OnInput (Reset + refill of the same column objects), over 32 column types and two large pseudo-random blocks (40000 x UInt64 = 320 KB, 3000 x 64-byte strings) (integers to 256 bits, floats, Bool, UUID, IPv4/6, dates, DateTime64, Decimal, FixedString, name-based enums that must adopt the server's definition, JSON, Point, Nullable, LowCardinality, nested arrays, Array(LowCardinality), Map(String, Array), Tuple); OpenTelemetry span context) x {Disabled, None, LZ4, LZ4HC, ZSTD} at the newest revision, and queries with <= 1 deviation x every revision of the threshold-neighbour set from 54420 up x {Disabled, LZ4}. Each case is one execution of the real Connect + Do (default schedule); the recorded client bytes are compared with the reference encoding (Query packet byte for byte; blocks by reference decoding incl. frame checksum). distinct_nontrivial = cases.")
+	c.Rule("queries with <= 2 (thorough 4) fields deviating from a base query over per-field alphabets (query id given / generated / 300 bytes; body short / empty / 70 KiB / non-UTF-8; 0..2 connection settings; 0..2 query settings incl. an override and an empty value; 0..2 parameters; secret; query quota key; connection quota key (addendum); initial user; external data none / default table / named table with 2 columns; input of 1..3 columns, sent as one block or streamed in two rounds through OnInput (Reset + refill of the same column objects), over 32 column types and two large pseudo-random blocks (40000 x UInt64 = 320 KB, 3000 x 64-byte strings) (integers to 256 bits, floats, Bool, UUID, IPv4/6, dates, DateTime64, Decimal, FixedString, name-based enums that must adopt the server's definition, JSON, Point, Nullable, LowCardinality, nested arrays, Array(LowCardinality), Map(String, Array), Tuple); OpenTelemetry span context) x {Disabled, None, LZ4, LZ4HC, ZSTD} at the newest revision, and queries with <= 1 deviation x every revision of the threshold-neighbour set from 54420 up x {Disabled, LZ4}. Each case is one execution of the real Connect + Do (default schedule); the recorded client bytes are compared with the reference encoding (Query packet byte for byte; blocks by reference decoding incl. frame checksum). distinct_nontrivial = cases.")
 	run := func(k q02, group string) {
 		id := k.id()
 		if !c.Next(id) {
@@ -515,7 +515,7 @@ func C02(c *vk.Ctx) {
 	}
 	maxDev := 2
 	if !c.Quick() {
-		maxDev = 3
+		maxDev = 4
 	}
 	rec(q02{}, 0, maxDev)
 	// partition 2: <= 1 deviation x revision
